@@ -27,7 +27,7 @@ EXPLANATION = ('(a) create_projection_operator is traced with symbolic pointing 
 FUNCTIONS = ['projections.get_rotation_matrix', 'projections.create_projection_operator (einsum index order, reshape of indices)', 'instruments.sat.create_acquisition',
              'QURotationOperator wiring of samplings.pa', 'RavelOperator/IndexOperator composition', 'TransposeIndexRule on 2-d index arrays', 'LinearPolarizerHWPRule/QURotationHWPRule in the acquisition chain']
 BOUNDS = {'quick': 'nside 1 and 2; Stokes I/QU/IQU/IQUV; 1-3 detectors x 1-2 directions; 2-4 samples; 6 seeded pointings per configuration',
-          'thorough': 'same with 20 pointings per configuration'}
+          'thorough': 'nside 1, 2, 4; seven detector/direction/sample layouts; 20 pointings per IQU configuration'}
 STUBS = ['furax.projections.vec2dir -> recording shim (harness (a) only)',
          'StokesLandscape.world2index -> returns the indices the real method computed for the witness pointing (harness (b) only)',
          'Sampling.__len__ -> product of the broadcast shapes (np.broadcast cannot see traced arrays)']
@@ -43,9 +43,9 @@ def cases(tier, seed):
         out.append(('rot', ndet, ndir, ns))
     npoint = 6 if tier == 'quick' else 20
     cfgs = []
-    for nside in (1, 2):
+    for nside in ((1, 2) if tier == 'quick' else (1, 2, 4)):
         for st in ('I', 'QU', 'IQU', 'IQUV'):
-            for ndet, ndir, ns in [(1, 1, 2), (2, 1, 3), (3, 1, 4), (2, 2, 2)]:
+            for ndet, ndir, ns in [(1, 1, 2), (2, 1, 3), (3, 1, 4), (2, 2, 2)] + ([(3, 2, 3), (4, 1, 2), (2, 1, 2)] if tier == 'thorough' else []):
                 cfgs.append((nside, st, ndet, ndir, ns))
     for cfg in cfgs:
         for k in range(npoint if cfg[1] == 'IQU' else 2):
